@@ -1,4 +1,5 @@
 import CoapVerif.Lemmas.TlsGate
+import CoapVerif.Lemmas.TlsLedger
 import CoapVerif.Lemmas.PskSelect
 import CoapVerif.Spec.TlsCreds
 /-
@@ -714,6 +715,392 @@ theorem accepts_ok_key (cfg : TlsCreds.Cfg) (h : TlsCreds.accepts cfg = .ok) :
           obtain ⟨_, hne, heq⟩ := ite_ok _ h
           rw [if_neg hne, heq]
 
+/-! ### the serial-number ledger: the delay queue over WHOLE histories
+
+Every message the application submits gets a ghost serial number (`QMsg.sn`, from `Sess.next`); a NACK that names a message and
+a PDU written carry the serial of their message.  `Coap.TlsGate.Core` (Lemmas/TlsLedger.lean) is the ledger that every function
+of M preserves until the TLS library reports a completed handshake: nothing is in flight, the delay queue holds its messages in
+submission order (serials strictly increasing), nothing queued has been reported, nothing has been reported twice, and a
+Confirmable that was seen in the queue of a live session is either still there (session still live) or gone and reported once.
+`nk j tr` = the number of NACKs in `tr` that name message `j` (the advisory COAP_NACK_ICMP_ISSUE notification, after which
+coap_session_disconnected_lkd returns without touching the queues, is not counted: see `icmp_notification_is_extra`). -/
+
+theorem run_append (s : Sess) (a b : List (Ev × List Orc)) :
+    s.run (a ++ b) = (((s.run a).1.run b).1, (s.run a).2 ++ ((s.run a).1.run b).2) := by
+  induction a generalizing s with
+  | nil => simp [Sess.run]
+  | cons eo t ih =>
+    obtain ⟨e, o⟩ := eo
+    simp only [List.cons_append, Sess.run, ih, List.append_assoc]
+
+/-- what the ledger needs at the start of a history: nothing in flight, the delay queue in submission order with serials
+already handed out, lg_crcv entries likewise, a Confirmable with an lg_crcv entry is queued (all trivially true of a new
+session: everything is empty) -/
+structure Ledger0 (s : Sess) : Prop where
+  infl : s.inflight = []
+  srt : (s.delayq.map (·.sn)).Pairwise (· < ·)
+  lt : ∀ q ∈ s.delayq, q.sn < s.next
+  lgl : ∀ g ∈ s.lgCrcv, g.sn < s.next
+  lgc : ∀ g ∈ s.lgCrcv, g.con = true → g ∈ s.delayq
+
+/-- what the run-level induction carries between events: the gate invariant, and the ledger unless the oracle has reported
+success (`n0 j` = how often message `j` has been reported so far) -/
+structure LedOk (m : Mon) (n0 : Nat → Nat) (t : Bool) (k : Nat) (s : Sess) : Prop where
+  ok : SessOk m s
+  led : m.seen = true ∨ ∀ orc, Core n0 t k { s := s, orc := orc }
+
+theorem step_ledOk {m : Mon} {n0 : Nat → Nat} {t : Bool} {k : Nat} {s : Sess} (e : Ev) (orc : List Orc) (h : LedOk m n0 t k s) :
+    LedOk (m.run (s.step e orc).2) (fun j => n0 j + nk j (s.step e orc).2) t k (s.step e orc).1 := by
+  have hb : Both m n0 false t k { s := s, orc := orc } :=
+    ⟨inv_of_sessOk orc h.ok, h.led.imp (fun hs => by simpa using hs) fun hc => hc orc⟩
+  have hb' := stepCtx_both s e orc hb
+  exact ⟨sessOk_of_inv hb'.inv, hb'.led.imp id fun hc orc' => core_rebase orc' hc⟩
+
+theorem run_ledOk {m : Mon} {n0 : Nat → Nat} {t : Bool} {k : Nat} {s : Sess} (evs : List (Ev × List Orc)) (h : LedOk m n0 t k s) :
+    LedOk (m.run (s.run evs).2) (fun j => n0 j + nk j (s.run evs).2) t k (s.run evs).1 := by
+  induction evs generalizing m n0 s with
+  | nil => simpa [Sess.run] using h
+  | cons eo tl ih =>
+    obtain ⟨e, o⟩ := eo
+    have h2 := ih (step_ledOk e o h)
+    simp only [Sess.run, Mon.run_append]
+    have hf : (fun j => n0 j + nk j ((s.step e o).2 ++ ((s.step e o).1.run tl).2)) =
+        (fun j => n0 j + nk j (s.step e o).2 + nk j ((s.step e o).1.run tl).2) := by
+      funext j; rw [nk_append, Nat.add_assoc]
+    rw [hf]
+    exact h2
+
+theorem ledOk_start {s : Sess} (h : Unauth s) (hl : Ledger0 s) : LedOk ⟨true, false⟩ (fun _ => 0) false 0 s :=
+  ⟨unauth_sessOk h, Or.inr fun _ => ⟨hl.infl, hl.srt, hl.lt, hl.lgl, hl.lgc, by simp, by simp, by simp, by simp, by simp⟩⟩
+
+theorem not_seen_of_no_mark (tr : List Out) (hnm : Out.hsOkMark ∉ tr) : ((⟨true, false⟩ : Mon).run tr).seen ≠ true := by
+  intro hs
+  rcases mon_seen_mark _ _ hs with h1 | ⟨x, hx, hm⟩
+  · simp at h1
+  · rw [isMark_eq hm] at hx; exact hnm hx
+
+/-- THE LEDGER, over all histories in which the TLS library never reports a completed handshake (credentials that do not
+match, a handshake that never finishes, a session that is abandoned or released): at the end of EVERY such history of a
+session — any events, any answers of the TLS library —
+  * no message at all has been reported more than once (Confirmable or not: D19g's lg_crcv report included);
+  * the delay queue holds its messages in submission order (serials strictly increasing: each message once);
+  * nothing that is queued has been reported; nothing is in flight (nothing was written: `nothing_queued_written_before_established`). -/
+theorem ledger_before_established {s : Sess} (h : Unauth s) (hl : Ledger0 s) (evs : List (Ev × List Orc))
+    (hnm : Out.hsOkMark ∉ (s.run evs).2) :
+    (∀ j, nk j (s.run evs).2 ≤ 1) ∧ ((s.run evs).1.delayq.map (·.sn)).Pairwise (· < ·) ∧
+      (∀ x ∈ (s.run evs).1.delayq, nk x.sn (s.run evs).2 = 0) ∧ (s.run evs).1.inflight = [] := by
+  have h1 := run_ledOk evs (ledOk_start h hl)
+  rcases h1.led with hs | hc
+  · exact absurd hs (not_seen_of_no_mark _ hnm)
+  · have hc := hc []
+    exact ⟨fun j => by simpa using hc.n1 j, hc.srt, fun x hx => by simpa using hc.nq x hx, hc.infl⟩
+
+/-- (a) EXACTLY ONE NACK, trace level.  Take ANY history `pre ++ rest` of a session that starts unauthenticated, in which the
+TLS library never reports a completed handshake, and any Confirmable `q` that is in the delay queue after `pre` while the
+session is live (state not NONE — a handshake is under way —, not freed).  Then, whatever the events of `rest` and the answers of
+the TLS library are:
+  * nothing is ever written, in clear or through the TLS layer;
+  * at the end, EITHER `q` is still queued, the session is still live and `q` has not been reported at all, OR `q` is no longer
+    queued and has been reported by exactly ONE NACK in the whole history — never two, and never zero once it left the queue;
+  * when the session has failed (state NONE: handshake failure, alert, DTLS retransmissions exhausted, connection closed,
+    coap_session_disconnected) or was freed (released / reclaimed) by the end, it IS the second case: exactly one NACK.
+Carved out (and only this): NACKs with reason COAP_NACK_ICMP_ISSUE are not counted — coap_session_disconnected_lkd(ICMP) names
+the first lg_crcv entry's request and returns, the request stays queued and is reported again when the session fails
+(`icmp_notification_is_extra`). -/
+theorem queued_con_one_nack_on_failure {s : Sess} (h : Unauth s) (hl : Ledger0 s) (pre rest : List (Ev × List Orc)) (q : QMsg)
+    (hq : q ∈ (s.run pre).1.delayq) (hc : q.con = true) (hal : (s.run pre).1.state ≠ .none)
+    (hfr : (s.run pre).1.freed = false) (hnm : Out.hsOkMark ∉ (s.run (pre ++ rest)).2) :
+    (∀ o ∈ (s.run (pre ++ rest)).2, ∀ tls v sn, o ≠ Out.tx tls v sn) ∧
+    ((∃ x ∈ (s.run (pre ++ rest)).1.delayq, x.sn = q.sn ∧ x.con = true ∧ (s.run (pre ++ rest)).1.state ≠ .none ∧
+        (s.run (pre ++ rest)).1.freed = false ∧ nk q.sn (s.run (pre ++ rest)).2 = 0) ∨
+     ((∀ x ∈ (s.run (pre ++ rest)).1.delayq, x.sn ≠ q.sn) ∧ nk q.sn (s.run (pre ++ rest)).2 = 1)) ∧
+    ((s.run (pre ++ rest)).1.state = .none ∨ (s.run (pre ++ rest)).1.freed = true →
+      nk q.sn (s.run (pre ++ rest)).2 = 1) := by
+  have hnotx : ∀ o ∈ (s.run (pre ++ rest)).2, ∀ tls v sn, o ≠ Out.tx tls v sn := by
+    intro o ho tls v sn heq
+    subst heq
+    obtain ⟨a, b, hab⟩ := List.append_of_mem ho
+    have := nothing_queued_written_before_established h (pre ++ rest) a b tls v sn hab
+    exact hnm (by rw [hab]; simp [this])
+  have hdich : (∃ x ∈ (s.run (pre ++ rest)).1.delayq, x.sn = q.sn ∧ x.con = true ∧ (s.run (pre ++ rest)).1.state ≠ .none ∧
+        (s.run (pre ++ rest)).1.freed = false ∧ nk q.sn (s.run (pre ++ rest)).2 = 0) ∨
+      ((∀ x ∈ (s.run (pre ++ rest)).1.delayq, x.sn ≠ q.sn) ∧ nk q.sn (s.run (pre ++ rest)).2 = 1) := by
+    rw [run_append] at hnm ⊢
+    simp only [List.mem_append, not_or] at hnm
+    have h1 := run_ledOk pre (ledOk_start (s := s) h hl)
+    have hc1 : ∀ orc, Core (fun j => 0 + nk j (s.run pre).2) false 0 { s := (s.run pre).1, orc := orc } := by
+      rcases h1.led with hs | hcore
+      · exact absurd hs (not_seen_of_no_mark _ hnm.1)
+      · exact hcore
+    have h1' : LedOk ((⟨true, false⟩ : Mon).run (s.run pre).2) (fun j => 0 + nk j (s.run pre).2) true q.sn (s.run pre).1 :=
+      ⟨h1.ok, Or.inr fun orc => core_track (hc1 orc) q hq hc hal hfr⟩
+    have h2 := run_ledOk rest h1'
+    rcases h2.led with hs | hcore
+    · rw [← Mon.run_append] at hs
+      exact absurd hs (not_seen_of_no_mark _ (by simp [hnm.1, hnm.2]))
+    · have hcore := hcore []
+      rcases hcore.trk rfl with ⟨x, hx, e1, e2, e3, e4⟩ | ⟨e1, e2⟩
+      · left
+        refine ⟨x, hx, e1, e2, e3, e4, ?_⟩
+        have := hcore.nq x hx
+        rw [e1] at this
+        simp only [nk_nil, Nat.add_zero, Nat.zero_add] at this
+        rw [nk_append]; exact this
+      · right
+        refine ⟨e1, ?_⟩
+        simp only [nk_nil, Nat.add_zero, Nat.zero_add] at e2
+        rw [nk_append]; exact e2
+  refine ⟨hnotx, hdich, ?_⟩
+  intro hend
+  rcases hdich with ⟨x, _, _, _, e3, e4, _⟩ | ⟨_, e2⟩
+  · rcases hend with hend | hend
+    · exact absurd hend e3
+    · rw [e4] at hend; simp at hend
+  · exact e2
+
+/-- a creating call that kept the gate invariant and the ledger and in which the oracle did not report success leaves a
+session from which the ledger theorems start -/
+theorem start_of_both {c : Ctx} (hb : Both ⟨true, false⟩ (fun _ => 0) false false 0 c) (hnm : Out.hsOkMark ∉ c.out) :
+    Unauth c.s ∧ Ledger0 c.s := by
+  have hns := not_seen_of_no_mark _ hnm
+  refine ⟨⟨?_, fun hs => hns (hb.inv.st hs), hb.inv.proto⟩, ?_⟩
+  · cases he : c.s.est with
+    | false => rfl
+    | true => exact absurd (hb.inv.est he) hns
+  · rcases hb.led with hs | hc
+    · exact absurd hs hns
+    · exact ⟨hc.infl, hc.srt, hc.lt, hc.lgl, hc.lgc⟩
+
+theorem both_fresh_ctx (s : Sess) (orc : List Orc) (hp : s.proto ≠ .udp) (he : s.est = false) (hst : s.state ≠ .established)
+    (h1 : s.inflight = []) (h2 : s.delayq = []) (h3 : s.lgCrcv = []) :
+    Both ⟨true, false⟩ (fun _ => 0) false false 0 { s := s, orc := orc } :=
+  ⟨⟨rfl, by simp [he], by simp [hst], by simp, hp⟩,
+   Or.inr ⟨h1, by simp [h2], by simp [h2], by simp [h3], by simp [h3], by simp, by simp, by simp, by simp, by simp⟩⟩
+
+/-- the hypotheses `Unauth`, `Ledger0` of the ledger theorems hold for EVERY session as libcoap creates it, unless the TLS
+library reported success inside the creating call: the DTLS client session of coap_new_client_session_psk2 … -/
+theorem newClient_start (orc : List Orc) (bm : Bool) (hnm : Out.hsOkMark ∉ (newClient orc bm).2) :
+    Unauth (newClient orc bm).1 ∧ Ledger0 (newClient orc bm).1 :=
+  start_of_both (both_dtlsEstablishClient (both_fresh_ctx _ orc (by simp) rfl (by simp) rfl rfl rfl)) hnm
+
+/-- … the DTLS server session made for a ClientHello (coap_read_endpoint / coap_session_new_dtls_session) … -/
+theorem endpoint_start (orc : List Orc) (hnm : Out.hsOkMark ∉ (endpointRxUnknownCtx orc).out) :
+    Unauth (endpointRxUnknownCtx orc).s ∧ Ledger0 (endpointRxUnknownCtx orc).s := by
+  refine start_of_both ?_ hnm
+  unfold endpointRxUnknownCtx
+  exact both_handleDgramForProto (both_emit _ rfl (fun _ => rfl) (both_fresh_ctx _ orc (by simp) rfl (by simp) rfl rfl rfl))
+
+/-- … the TLS client session (connect() completed at once or in progress) and the TLS server session after accept -/
+theorem newClientTls_start (now : Bool) (orc : List Orc) (bm : Bool) (hnm : Out.hsOkMark ∉ (newClientTlsCtx now orc bm).out) :
+    Unauth (newClientTlsCtx now orc bm).s ∧ Ledger0 (newClientTlsCtx now orc bm).s := by
+  refine start_of_both ?_ hnm
+  unfold newClientTlsCtx
+  exact both_ite (fun _ => both_tlsEstablish (both_fresh_ctx _ orc (by simp) rfl (by simp) rfl rfl rfl)) fun _ =>
+    bupd! (both_fresh_ctx _ orc (by simp) rfl (by simp) rfl rfl rfl)
+
+theorem accept_start (orc : List Orc) (hnm : Out.hsOkMark ∉ (acceptCtx orc).out) :
+    Unauth (acceptCtx orc).s ∧ Ledger0 (acceptCtx orc).s := by
+  refine start_of_both ?_ hnm
+  unfold acceptCtx
+  exact both_tlsEstablish (both_emit _ rfl (fun _ => rfl) (both_emit _ rfl (fun _ => rfl)
+    (both_fresh_ctx _ orc (by simp) rfl (by simp) rfl rfl rfl)))
+
+/-- frame of the accepting flush: what `queued_delivered_in_order_once_on_success_partial` does not say -/
+theorem flush_accepting_frame (fuel : Nat) (c : Ctx) (hp : c.s.proto = .dtls)
+    (he : c.s.est = true) (hs : c.s.state = .established) (hd : c.s.dtlsEvent = none)
+    (ho : ∀ n, c.orc.drop n = [] ∨ ∃ t, c.orc.drop n = Orc.snd .ok :: t) (hlen : c.s.delayq.length ≤ c.orc.length) :
+    (Ctx.flushLoop fuel c).s.dtlsEvent = none ∧ (Ctx.flushLoop fuel c).s.appRef = c.s.appRef ∧
+      (Ctx.flushLoop fuel c).s.typ = c.s.typ ∧ (Ctx.flushLoop fuel c).s.freed = c.s.freed ∧
+      (Ctx.flushLoop fuel c).s.state = .established := by
+  induction fuel generalizing c with
+  | zero => exact ⟨hd, rfl, rfl, rfl, hs⟩
+  | succ n ih =>
+    unfold Ctx.flushLoop
+    cases hq : c.s.delayq with
+    | nil => exact ⟨hd, rfl, rfl, rfl, hs⟩
+    | cons q rest =>
+      simp only [hs, ne_eq, not_true_eq_false, if_false]
+      have horc : ∃ t, c.orc = Orc.snd .ok :: t := by
+        rcases ho 0 with h | h
+        · simp at h; rw [hq, h] at hlen; simp at hlen
+        · simpa using h
+      obtain ⟨t, ht⟩ := horc
+      by_cases hblock : (q.con && decide (c.s.proto ≠ Proto.tls) && decide (c.s.conActive ≥ NSTART)) = true
+      · simp only [hblock, if_true]
+        exact ⟨hd, trivial, trivial, trivial, hs⟩
+      · simp only [hblock]
+        have hone : (c.flushOne q rest).s.delayq = rest ∧ (c.flushOne q rest).ret = 1 ∧ (c.flushOne q rest).orc = t ∧
+            (c.flushOne q rest).s.proto = .dtls ∧ (c.flushOne q rest).s.est = true ∧
+            (c.flushOne q rest).s.state = .established ∧ (c.flushOne q rest).s.dtlsEvent = none ∧
+            (c.flushOne q rest).s.appRef = c.s.appRef ∧ (c.flushOne q rest).s.typ = c.s.typ ∧
+            (c.flushOne q rest).s.freed = c.s.freed := by
+          unfold Ctx.flushOne Ctx.sessionSendPdu Ctx.dtlsSend Ctx.dtlsSendCore Ctx.sndResult Ctx.popSnd Ctx.sendTail
+          simp [Ctx.upd, Ctx.emit, Ctx.setRet, hp, he, hs, hd, ht, QMsg.snOf]
+        obtain ⟨o2, o3, o4, o5, o6, o7, o8, o9, o10, o11⟩ := hone
+        have hlt : ¬ ((c.flushOne q rest).ret < 0) := by rw [o3]; omega
+        have hnt : ¬ ((c.flushOne q rest).s.proto = Proto.tls) := by rw [o5]; decide
+        simp only [hnt, hlt, if_false, Bool.false_eq_true]
+        have hrec := ih (c.flushOne q rest) o5 o6 o7 o8
+          (by intro k; have := ho (k + 1); rw [ht] at this; simpa [o4] using this)
+          (by rw [o2, o4]; rw [hq, ht] at hlen; simpa using hlen)
+        rw [hrec.1, hrec.2.1, hrec.2.2.1, hrec.2.2.2.1, hrec.2.2.2.2, o9, o10, o11]
+        exact ⟨rfl, rfl, rfl, rfl, rfl⟩
+
+/-- coap_dtls_receive's handshake branch when the oracle reports success and then accepts the writes -/
+theorem recvHs_ok (c : Ctx) (snds : List Orc) (horc : c.orc = .hs .ok :: snds) (hp : c.s.proto = .dtls)
+    (hst : c.s.state = .handshake) (hd : c.s.dtlsEvent = none)
+    (ho : ∀ n, snds.drop n = [] ∨ ∃ t, snds.drop n = Orc.snd .ok :: t) (hlen : c.s.delayq.length ≤ snds.length) :
+    c.recvHs.out = c.out ++ Out.hsOkMark :: (sentPrefix c.s.conActive c.s.delayq).map (fun m => Out.tx true (m.view false) (some m.sn)) ∧
+    c.recvHs.s.delayq = c.s.delayq.drop (sentPrefix c.s.conActive c.s.delayq).length ∧
+    c.recvHs.s.state = .established ∧ c.recvHs.s.appRef = c.s.appRef ∧ c.recvHs.s.typ = c.s.typ ∧
+    c.recvHs.s.freed = c.s.freed := by
+  have hD : c.doHandshake.ret = 1 ∧ c.doHandshake.orc = snds ∧ c.doHandshake.out = c.out ++ [Out.hsOkMark] ∧
+      c.doHandshake.s.proto = .dtls ∧ c.doHandshake.s.est = true ∧ c.doHandshake.s.state = .handshake ∧
+      c.doHandshake.s.dtlsEvent = none ∧ c.doHandshake.s.delayq = c.s.delayq ∧ c.doHandshake.s.conActive = c.s.conActive ∧
+      c.doHandshake.s.typ = c.s.typ ∧ c.doHandshake.s.appRef = c.s.appRef ∧ c.doHandshake.s.freed = c.s.freed := by
+    unfold Ctx.doHandshake Ctx.popHs
+    simp [horc, Ctx.upd, Ctx.emit, Ctx.setRet, hp, hst, hd]
+  unfold Ctx.recvHs Ctx.hsThenConnect
+  simp only
+  generalize c.doHandshake = D at hD ⊢
+  obtain ⟨d1, d2, d3, d4, d5, d6, d7, d8, d9, d10, d11, d12⟩ := hD
+  have hF : D.sessionConnected = Ctx.flushLoop (D.s.delayq.length + 1) (D.upd fun s => { s with state := .established }) := by
+    unfold Ctx.sessionConnected
+    simp [d6, Ctx.upd]
+  have hE : (D.upd fun s => { s with state := .established }).orc = snds ∧
+      (D.upd fun s => { s with state := .established }).out = c.out ++ [Out.hsOkMark] ∧
+      (D.upd fun s => { s with state := .established }).s.proto = .dtls ∧
+      (D.upd fun s => { s with state := .established }).s.est = true ∧
+      (D.upd fun s => { s with state := .established }).s.state = .established ∧
+      (D.upd fun s => { s with state := .established }).s.dtlsEvent = none ∧
+      (D.upd fun s => { s with state := .established }).s.delayq = c.s.delayq ∧
+      (D.upd fun s => { s with state := .established }).s.conActive = c.s.conActive ∧
+      (D.upd fun s => { s with state := .established }).s.typ = c.s.typ ∧
+      (D.upd fun s => { s with state := .established }).s.appRef = c.s.appRef ∧
+      (D.upd fun s => { s with state := .established }).s.freed = c.s.freed :=
+    ⟨d2, d3, d4, d5, rfl, d7, d8, d9, d10, d11, d12⟩
+  rw [d8] at hF
+  generalize (D.upd fun s => { s with state := .established }) = E at hF hE
+  obtain ⟨e1, e2, e3, e4, e5, e6, e7, e8, e9, e10, e11⟩ := hE
+  have p1 := queued_delivered_in_order_once_on_success_partial (c.s.delayq.length + 1) E e3 e4 e5 e6
+    (by rw [e1]; exact ho) (by rw [e1, e7]; exact hlen) (by rw [e7]; omega)
+  have p2 := flush_accepting_frame (c.s.delayq.length + 1) E e3 e4 e5 e6 (by rw [e1]; exact ho) (by rw [e1, e7]; exact hlen)
+  rw [← hF] at p1 p2
+  generalize D.sessionConnected = F at p1 p2
+  simp only [d1, if_true, Ctx.setFlag, Ctx.receiveTail, p2.1]
+  rw [p1.1, p1.2, e2, e7, e8, p2.2.1, p2.2.2.1, p2.2.2.2.1, p2.2.2.2.2, e9, e10, e11]
+  simp
+
+/-- the datagram that completes the handshake, on a DTLS session in HANDSHAKE state -/
+theorem establishing_dgram (s : Sess) (snds : List Orc) (hp : s.proto = .dtls) (hty : s.typ ≠ .hello) (htls : s.tls = true)
+    (hest : s.est = false) (hst : s.state = .handshake) (hfr : s.freed = false) (hap : s.appRef = true)
+    (ho : ∀ n, snds.drop n = [] ∨ ∃ t, snds.drop n = Orc.snd .ok :: t) (hlen : s.delayq.length ≤ snds.length) :
+    (s.step .dgram (.hs .ok :: snds)).2 =
+      Out.hsOkMark :: (sentPrefix s.conActive s.delayq).map (fun m => Out.tx true (m.view false) (some m.sn)) ∧
+    (s.step .dgram (.hs .ok :: snds)).1.delayq = s.delayq.drop (sentPrefix s.conActive s.delayq).length ∧
+    (s.step .dgram (.hs .ok :: snds)).1.state = .established := by
+  have hr := recvHs_ok (({ s := s, orc := .hs .ok :: snds } : Ctx).upd fun s => { s with dtlsEvent := none }) snds rfl hp hst rfl
+    ho hlen
+  have hstep : s.stepCtx .dgram (.hs .ok :: snds) =
+      ((({ s := s, orc := .hs .ok :: snds } : Ctx).upd fun s => { s with dtlsEvent := none }).recvHs).maybeFree := by
+    unfold Sess.stepCtx Ctx.handleDgramForProto Ctx.dtlsReceive
+    simp [hfr, hp, hty, htls, hest, Ctx.upd]
+  unfold Sess.step
+  simp only [hstep]
+  generalize (({ s := s, orc := .hs .ok :: snds } : Ctx).upd fun s => { s with dtlsEvent := none }).recvHs = R at hr
+  obtain ⟨r1, r2, r3, r4, r5, r6⟩ := hr
+  have hm : R.maybeFree = R := by
+    unfold Ctx.maybeFree
+    have : R.s.appRef = true := by rw [r4]; exact hap
+    simp [this]
+  rw [hm, r1, r2, r3]
+  simp [Ctx.upd]
+
+/-- (b) IN ORDER, ONCE, trace level — every history up to and including the datagram that completes the handshake.  Take ANY
+history `pre` of a session that starts unauthenticated in which the TLS library has not reported success (any events, any
+answers), ending on a DTLS session in HANDSHAKE state that the application still holds; then the datagram arrives with which
+the TLS library reports the completed handshake and accepts the writes that follow.  In the WHOLE trace:
+  * nothing was written before the oracle's success; the delay queue at that point holds the submissions in submission order
+    (serials strictly increasing);
+  * after the mark exactly `sentPrefix` of the queue is handed to the TLS layer (`tx true`), in queue = submission order, and
+    nothing else is output; the rest of the queue stays queued, in order; the session is ESTABLISHED;
+  * every message of `sentPrefix` has been written exactly ONCE in the whole history, no message more than once;
+  * nothing that was queued has been NACKed, and no message at all has been reported twice.
+NOT covered (kept as `queued_delivered_in_order_once_on_success_partial`, step level): the later passes of
+coap_session_connected that send the rest of the queue when the active Confirmable is acknowledged, retransmissions (a
+retransmitted PDU carries the same serial), and a write the TLS library refuses — coap_session_connected stops draining
+(`if (bytes_written < 0) break;`), the known finding `drain_break_strands_delayed` of C06. -/
+theorem queued_first_flush_in_order_once_on_success {s : Sess} (h : Unauth s) (hl : Ledger0 s) (pre : List (Ev × List Orc))
+    (hnm : Out.hsOkMark ∉ (s.run pre).2) (snds : List Orc)
+    (hp : (s.run pre).1.proto = .dtls) (hty : (s.run pre).1.typ ≠ .hello) (htls : (s.run pre).1.tls = true)
+    (hst : (s.run pre).1.state = .handshake) (hfr : (s.run pre).1.freed = false) (hap : (s.run pre).1.appRef = true)
+    (ho : ∀ n, snds.drop n = [] ∨ ∃ t, snds.drop n = Orc.snd .ok :: t) (hlen : (s.run pre).1.delayq.length ≤ snds.length) :
+    (∀ o ∈ (s.run pre).2, ∀ tls v sn, o ≠ Out.tx tls v sn) ∧
+    ((s.run pre).1.delayq.map (·.sn)).Pairwise (· < ·) ∧
+    (s.run (pre ++ [(.dgram, .hs .ok :: snds)])).2 = (s.run pre).2 ++ Out.hsOkMark ::
+      (sentPrefix (s.run pre).1.conActive (s.run pre).1.delayq).map (fun m => Out.tx true (m.view false) (some m.sn)) ∧
+    (s.run (pre ++ [(.dgram, .hs .ok :: snds)])).1.delayq =
+      (s.run pre).1.delayq.drop (sentPrefix (s.run pre).1.conActive (s.run pre).1.delayq).length ∧
+    (s.run (pre ++ [(.dgram, .hs .ok :: snds)])).1.state = .established ∧
+    (∀ j, wr j (s.run (pre ++ [(.dgram, .hs .ok :: snds)])).2 ≤ 1) ∧
+    (∀ x ∈ sentPrefix (s.run pre).1.conActive (s.run pre).1.delayq, wr x.sn (s.run (pre ++ [(.dgram, .hs .ok :: snds)])).2 = 1) ∧
+    (∀ j, nk j (s.run (pre ++ [(.dgram, .hs .ok :: snds)])).2 ≤ 1) ∧
+    (∀ x ∈ (s.run pre).1.delayq, nk x.sn (s.run (pre ++ [(.dgram, .hs .ok :: snds)])).2 = 0) := by
+  have hnotx : ∀ o ∈ (s.run pre).2, ∀ tls v sn, o ≠ Out.tx tls v sn := by
+    intro o ho' tls v sn heq
+    subst heq
+    obtain ⟨a, b, hab⟩ := List.append_of_mem ho'
+    have := nothing_queued_written_before_established h pre a b tls v sn hab
+    exact hnm (by rw [hab]; simp [this])
+  obtain ⟨l1, l2, l3, _⟩ := ledger_before_established h hl pre hnm
+  have hest : (s.run pre).1.est = false := by
+    cases he : (s.run pre).1.est with
+    | false => rfl
+    | true => exact absurd ((run_sessOk pre (unauth_sessOk h)).est he) (not_seen_of_no_mark _ hnm)
+  obtain ⟨g1, g2, g3⟩ := establishing_dgram (s.run pre).1 snds hp hty htls hest hst hfr hap ho hlen
+  have hrun : s.run (pre ++ [(.dgram, .hs .ok :: snds)]) =
+      (((s.run pre).1.step .dgram (.hs .ok :: snds)).1, (s.run pre).2 ++ ((s.run pre).1.step .dgram (.hs .ok :: snds)).2) := by
+    rw [run_append]; simp [Sess.run]
+  rw [hrun]
+  simp only [g1, g2, g3]
+  have hw0 : ∀ j, wr j (s.run pre).2 = 0 := by
+    intro j
+    unfold wr
+    rw [List.countP_eq_zero]
+    intro o ho' hwr
+    cases o with
+    | tx a v sn => exact hnotx _ ho' a v sn rfl
+    | _ => simp [Out.writes] at hwr
+  have hwf : ∀ j, wr j ((s.run pre).2 ++ Out.hsOkMark ::
+      (sentPrefix (s.run pre).1.conActive (s.run pre).1.delayq).map (fun m => Out.tx true (m.view false) (some m.sn))) =
+      (sentPrefix (s.run pre).1.conActive (s.run pre).1.delayq).countP (fun m => m.sn == j) := by
+    intro j
+    have := hw0 j
+    unfold wr at this ⊢
+    rw [List.countP_append, this, List.countP_cons, List.countP_map]
+    simp only [Out.writes, Bool.false_eq_true, if_false, Nat.zero_add, Nat.add_zero]
+    congr 1
+  have hsp : ((sentPrefix (s.run pre).1.conActive (s.run pre).1.delayq).map (·.sn)).Pairwise (· < ·) :=
+    List.Pairwise.sublist (List.Sublist.map _ (sentPrefix_isPrefix _ _).sublist) l2
+  have hnf : ∀ j, nk j ((s.run pre).2 ++ Out.hsOkMark ::
+      (sentPrefix (s.run pre).1.conActive (s.run pre).1.delayq).map (fun m => Out.tx true (m.view false) (some m.sn))) =
+      nk j (s.run pre).2 := by
+    intro j
+    rw [nk_append, nk_quiet j (Out.hsOkMark :: _)]
+    · rfl
+    · intro o ho'
+      simp only [List.mem_cons, List.mem_map] at ho'
+      rcases ho' with rfl | ⟨m, _, rfl⟩ <;> rfl
+  refine ⟨hnotx, l2, trivial, trivial, trivial, ?_, ?_, ?_, ?_⟩
+  · intro j; rw [hwf]; exact countP_sn_le_one _ hsp j
+  · intro x hx
+    rw [hwf]
+    have h1 := countP_sn_le_one _ hsp x.sn
+    have h2 := countP_sn_pos _ x hx
+    omega
+  · intro j; rw [hnf]; exact l1 j
+  · intro x hx; rw [hnf]; exact l3 x hx
+
 /-! ### non-vacuity -/
 
 section PskSelectExamples
@@ -840,6 +1227,75 @@ example :
 /-- release with a queued CON: closed first, then NACKed once -/
 example : (hsClient.run [(.appSend true 1 7 "01", []), (.release, [])]).2 =
       [.bye, .ev .closed, .nack .tls (some "01") (some 0)] := by
+  decide
+
+/-- the ledger's start condition holds for the sessions histories start from (everything empty) -/
+example : Ledger0 hsClient := ⟨rfl, by decide, by decide, by decide, by decide⟩
+example : Ledger0 tlsHsClient := ⟨by decide, by decide, by decide, by decide, by decide⟩
+example : Ledger0 (newClient [.env true, .hs .again]).1 := ⟨by decide, by decide, by decide, by decide, by decide⟩
+
+/-- an instance of every hypothesis of `queued_con_one_nack_on_failure`: `pre` = two Confirmables and a Non-confirmable are
+queued, `rest` = a third Confirmable is queued, the DTLS timer fires, an alert arrives (handshake failed), another request is
+submitted on the dead session, the application releases it.  Message 0 is in the queue of a live session after `pre`, no
+success in the whole history … -/
+def failHist : List (Ev × List Orc) × List (Ev × List Orc) :=
+  ([(.appSend true 1 7 "01", []), (.appSend false 1 8 "02", []), (.appSend true 1 9 "03", [])],
+   [(.appSend true 1 10 "04", []), (.tlsTimeout, [.hs .again]), (.dgram, [.hs .fatalrx]), (.appSend true 1 11 "05", []),
+    (.release, [])])
+
+example : (⟨0, true, 1, 7, "01", 0⟩ : QMsg) ∈ (hsClient.run failHist.1).1.delayq ∧ (hsClient.run failHist.1).1.state ≠ .none ∧
+    (hsClient.run failHist.1).1.freed = false ∧ Out.hsOkMark ∉ (hsClient.run (failHist.1 ++ failHist.2)).2 := by decide
+
+/-- … and what the theorem says about it, computed: one NACK each for 0, 2, 3 (at the failure) and 4 (at the release), none
+for the Non-confirmable 1, nothing written -/
+example : (hsClient.run (failHist.1 ++ failHist.2)).2 =
+    [.nack .tls (some "01") (some 0), .nack .tls (some "03") (some 2), .nack .tls (some "04") (some 3), .ev .closed,
+     .nack .tls (some "05") (some 4)] ∧
+    (List.range 6).map (fun j => nk j (hsClient.run (failHist.1 ++ failHist.2)).2) = [1, 0, 1, 1, 1, 0] := by decide
+
+/-- THE CARVE-OUT of `queued_con_one_nack_on_failure` is real: block mode, a Confirmable Observe registration queued during the
+handshake, coap_session_disconnected_lkd(COAP_NACK_ICMP_ISSUE) (the peer's port is unreachable) reports the first lg_crcv
+entry's request and returns — the request stays queued —, then the handshake times out: the application sees the same request
+in two NACK callbacks (ICMP_ISSUE, then TLS_FAILED); `nk` counts the second only. -/
+theorem icmp_notification_is_extra :
+    (({ hsClient with blockMode := true, tmoCount := 4 } : Sess).run
+        [(.appSendL true true 1 7 "01", []), (.appDisconnect .icmp, []), (.tlsTimeout, [])]).2 =
+      [.nack .icmp (some "01") (some 0), .nack .tls (some "01") (some 0), .bye, .ev .closed] ∧
+    nk 0 [.nack .icmp (some "01") (some 0), .nack .tls (some "01") (some 0), .bye, .ev .closed] = 1 ∧
+    List.countP (names 0) [.nack .icmp (some "01") (some 0), .nack .tls (some "01") (some 0), .bye, .ev .closed] = 2 := by
+  decide
+
+/-- the creating calls without oracle success (the hypothesis of `newClient_start` … `accept_start`) -/
+example : Out.hsOkMark ∉ (newClient [.env true, .hs .again] true).2 ∧ Out.hsOkMark ∉ (endpointRxUnknownCtx [.env true, .ck true, .hs .again]).out ∧
+    Out.hsOkMark ∉ (newClientTlsCtx true [.env true, .hs .again] false).out ∧ Out.hsOkMark ∉ (acceptCtx [.env true, .hs .again]).out := by
+  decide
+
+/-- "the TLS library accepts the writes": `k` answers `snd ok` satisfy the oracle hypothesis of the flush theorems -/
+theorem accepting_replicate (k : Nat) :
+    ∀ n, (List.replicate k (Orc.snd .ok)).drop n = [] ∨ ∃ t, (List.replicate k (Orc.snd .ok)).drop n = Orc.snd .ok :: t := by
+  induction k with
+  | zero => intro n; left; simp
+  | succ k ih =>
+    intro n
+    cases n with
+    | zero => right; exact ⟨List.replicate k (Orc.snd .ok), by simp [List.replicate_succ]⟩
+    | succ n => simpa [List.replicate_succ] using ih n
+
+/-- an instance of every hypothesis of `queued_first_flush_in_order_once_on_success`: NON, CON, CON queued (and a DTLS timer
+expiry in between), then the handshake completes with three accepted writes available … -/
+def okPre : List (Ev × List Orc) :=
+  [(.appSend false 1 7 "01", []), (.tlsTimeout, [.hs .again]), (.appSend true 1 8 "02", []), (.appSend true 1 9 "03", [])]
+
+example : Out.hsOkMark ∉ (hsClient.run okPre).2 ∧ (hsClient.run okPre).1.proto = .dtls ∧ (hsClient.run okPre).1.typ ≠ .hello ∧
+    (hsClient.run okPre).1.tls = true ∧ (hsClient.run okPre).1.state = .handshake ∧ (hsClient.run okPre).1.freed = false ∧
+    (hsClient.run okPre).1.appRef = true ∧ (hsClient.run okPre).1.delayq.length ≤ (List.replicate 3 (Orc.snd .ok)).length := by
+  decide
+
+/-- … and the whole trace: the mark, the NON and the first CON through the TLS layer, in submission order; the second CON
+waits for the ACK (NSTART) -/
+example : (hsClient.run (okPre ++ [(.dgram, .hs .ok :: List.replicate 3 (Orc.snd .ok))])).2 =
+    [.hsOkMark, .tx true ⟨1, 1, 7, "01", ""⟩ (some 0), .tx true ⟨0, 1, 8, "02", ""⟩ (some 1)] ∧
+    ((hsClient.run (okPre ++ [(.dgram, .hs .ok :: List.replicate 3 (Orc.snd .ok))])).1.delayq.map (·.sn)) = [2] := by
   decide
 
 /-- a cleartext CoAP CON GET (0x41 …) at the endpoint from an unknown peer: nothing -/
